@@ -490,6 +490,8 @@ class EvalMixin:
             return self.class_static_attr(obj, name)
         if isinstance(obj, STup) and name in ('index', 'count'):
             raise Unsupported('tuple method')
+        if isinstance(obj, SStr) and not self.spec:
+            return VExternal('<opaque>.' + name, obj)
         if isinstance(obj, SV) and obj.shape is ValS:
             # attribute of an opaque value: opaque
             if self.spec:
